@@ -155,13 +155,17 @@ def run_property(prop, tier, only_rule=None, quiet=False):
     ctx = Ctx(prop, tier)
     try:
         tus = mod.TUS[tier] if tier in mod.TUS else mod.TUS["quick"]
-        db, info = run.extract(tus, mod.FILES, getattr(mod, "NAMES", "."), release=True)
+        mi = getattr(mod, "MAX_INST", {})
+        mi = mi.get(tier, 0) if isinstance(mi, dict) else int(mi)
+        db, info = run.extract(tus, mod.FILES, getattr(mod, "NAMES", "."), release=True, max_inst=mi)
         ctx.db = db
         ctx.info = info
+        if mi:
+            ctx.info["max_class_specializations_per_template"] = mi
         if getattr(mod, "NEED_BELIEF", False):
             btus = getattr(mod, "BELIEF_TUS", mod.TUS)
             btus = btus[tier] if tier in btus else btus["quick"]
-            bdb, binfo = run.extract(btus, mod.FILES, getattr(mod, "NAMES", "."), release=False)
+            bdb, binfo = run.extract(btus, mod.FILES, getattr(mod, "NAMES", "."), release=False, max_inst=mi)
             ctx.bdb = bdb
             ctx.info["belief_tus"] = binfo["tus"]
             ctx.info["functions"] += binfo["functions"]
